@@ -16,6 +16,7 @@ WHY_MISSED = {
  "C26-3": "dictionary null normalisation (Arrow arrays): C26 is claimed for the byte-pack codec only",
  "C28-1": "FSST symbol-table construction (raw pointers, randomised trainer): the FSST half of C28 is listed as undecided",
  "C28-2": "FSST `compress_bulk` (raw pointers, 32 KiB inputs): the FSST half of C28 is listed as undecided",
+ "C30-r3-1": "un-coalescing loop in the `async move` block of `FileScheduler::submit_request` (`Bytes` slicing, indices into `bytes_vec`): listed as undecided for C30",
  "C05-1": "`Manifest::max_field_id`: nested `flat_map` over fragments / data files / field ids; Kani attempt with array-backed shims ran out of memory at 28 GB for 2 x 2 x 2 (9.7)",
  "C05-2": "`Transaction::assign_row_ids`: CBMC out of memory in the design phase (section 4, C07/C18); C05 is claimed for the fragment-id high-water mark only",
  "C05-3": "`merge_fragments_valid` (lance/src/dataset/transaction.rs, iterator chains over `Fragment`s): not under contract; C05 is claimed for the fragment-id high-water mark only",
@@ -68,7 +69,9 @@ out.append("**%d of %d valid seeded changes are caught** (exit 1 with the named 
            "C28-3), the new `chunk_split` and `sched_ranges` units (after C30-3 / C30-1: the splitting loop of\n"
            "`LanceEncodingsIo::submit_request` and the coalescing / splitting loop bodies of `FileScheduler::submit_request`), `rowids_real` (counterexamples for `encoded_array`, after C34-1 had none).  Attempts that failed: `decompose_sequence`\n"
            "(C34-3 / C15-r2-2) and `max_field_id` (C05-1), see 9.7.  `C19-coerce-*` are my own breaking edits from round 1, not\n"
-           "independent seeds; `C21-4` breaks an existing test and is not counted.\n" % (n_caught, n_valid))
+           "independent seeds; `C21-4` breaks an existing test and is not counted.  Round 3 (session 3, C30 only, two changes): `C30-r3-2`\n"
+           "first ended as exit 2 (the change uses a new file-level constant and `u64::next_multiple_of`); after `chunk_split` learnt to pull\n"
+           "in every constant of io.rs (`//@consts ... :: optional`) and got an assumed contract for `next_multiple_of` it is caught.\n" % (n_caught, n_valid))
 out.append("| seed | property | change | confirmed | result of `./check <property>` with the change applied |")
 out.append("|---|---|---|---|---|")
 out.extend(rows)
